@@ -80,7 +80,8 @@ Fixpoint tail1 (cnt i : nat) (inp out : list A) : option (list A) :=
   end.
 (* [mem] = what nmtools::data() points to (storage order), [logical] = the elements in row-major
    index order, which is what apply_at(view, ndindex[i]) reads in the tail.  For a row-major operand
-   the two coincide. *)
+   the two coincide; other layouts no longer reach this loop (layout guard, see eval_unary_top): the
+   split form is kept to state why the guard is needed (Example C12_layout_guard_needed). *)
 Definition eval_unary_gen (mem logical out : list A) : option (list A) :=
   let size := length logical in
   let M := size / N in
@@ -195,8 +196,11 @@ Definition eval_binary (out_shape lhs_shape rhs_shape : list nat) (lhs rhs out :
    that evaluator's result (the very reference C12 compares with; its own correctness is C07/C08/C10). *)
 Definition with_fallback (scalar : list A) (o : outcome) : outcome :=
   match o with Refused => Done scalar | _ => o end.
-Definition eval_binary_top (out_shape lhs_shape rhs_shape : list nat) (lhs rhs out scalar : list A) : outcome :=
-  with_fallback scalar (eval_binary out_shape lhs_shape rhs_shape lhs rhs out).
+(* the layout guard at the head of every eval_* arm (since fix "SIMD evaluator leaves operands that are not
+   row-major to the default evaluator"): [row_major] = is_row_major<T>() of the output and of every operand *)
+Definition guard_layout (row_major : bool) (o : outcome) : outcome := if row_major then o else Refused.
+Definition eval_binary_top (row_major : bool) (out_shape lhs_shape rhs_shape : list nat) (lhs rhs out scalar : list A) : outcome :=
+  with_fallback scalar (guard_layout row_major (eval_binary out_shape lhs_shape rhs_shape lhs rhs out)).
 
 (* ------------------------------------------------------------------ eval_outer (ufunc.hpp:94-169) *)
 (* index/ufunc.hpp:300-327 outer_simd_shape; out_shape = lhs_shape ++ rhs_shape *)
@@ -376,11 +380,16 @@ Definition eval_reduction (inp_shape out_shape_k : list nat) (axis : option (boo
        | Some ax => of_opt (option_map (map (apply_initial init)) (eval_reduce_axis inp_shape out_shape_k ax inp out_size))
        | None => Refused
        end.
-Definition eval_reduction_top (inp_shape out_shape_k : list nat) (axis : option (bool * nat)) (init : option A)
+Definition eval_reduction_top (row_major : bool) (inp_shape out_shape_k : list nat) (axis : option (bool * nat)) (init : option A)
                               (inp scalar : list A) : outcome :=
-  with_fallback scalar (eval_reduction inp_shape out_shape_k axis init inp).
+  with_fallback scalar (guard_layout row_major (eval_reduction inp_shape out_shape_k axis init inp)).
+Definition eval_outer_top (row_major : bool) (lhs_shape rhs_shape : list nat) (lhs rhs out scalar : list A) : outcome :=
+  with_fallback scalar (guard_layout row_major (of_opt (eval_outer lhs_shape rhs_shape lhs rhs out))).
 
 End Binary.
+
+Definition eval_unary_top (row_major : bool) (f : A -> A) (inp out scalar : list A) : outcome :=
+  with_fallback scalar (guard_layout row_major (of_opt (eval_unary f inp out))).
 
 (* ================================================================== Spec *)
 (* element-wise: plain maps *)
